@@ -12,6 +12,7 @@ for PATCH in "$@"; do
     [ "$rc" != "0" -o "$v" != "0" ] && echo "$n $P exit=$rc violations=$v with-input=$(grep '^VIOLATION' /tmp/benign_${n}_$P.out | grep -vc no-failing-input-found)"
   done
   git -C /repo checkout -- .
+  git -C /verif checkout -- evidence 2>/dev/null
   echo "$n done"
 done
 git -C /repo status --short | head -3
